@@ -614,7 +614,26 @@ func gen(r *vlib.R, n int, tier string, emit func(string)) {
 	if tier == "thorough" {
 		genExhaustive(emit)
 	}
+	probes := 0
 	for n > 0 {
+		// real-signature probe: a genuine wildcard NSEC under a concrete owner
+		if probes < 40 && r.Chance(1, 25) {
+			probes++
+			zn := vlib.Pick(r, []string{"example", "ex.test", "a.b.c"})
+			z := parseName(zn)
+			owner := z.child(vlib.Pick(r, []string{"host", "www", "0", "zz"}))
+			if r.Chance(1, 3) {
+				owner = owner.child("deep")
+			}
+			next := z.child(vlib.Pick(r, []string{"a", "m", "zzz"}))
+			q := owner
+			kind := "nd"
+			if r.Bool() {
+				q, kind = owner.child("below"), "nx"
+			}
+			emit(fmt.Sprintf("p expanded %s %s %s 16,46,47 %s %d %s", z, owner, next, q, vlib.Pick(r, []int{1, 28, 16, 43}), kind))
+			n--
+		}
 		switch k := r.Intn(20); {
 		case k < 11:
 			n -= genNsecCase(r, emit)
